@@ -130,6 +130,8 @@ type Sim struct {
 	cutActors bool
 
 	endVirtual time.Duration
+	zsink      *Webhook
+	hiddenSeq  int
 }
 
 func newSim(ch *chooser) *Sim {
